@@ -19,7 +19,7 @@ Section CLines.
            let inline_ok := match prev with
                             | Some p => (if need_bind then is_bind p else true) && negb (has_nl g) && seen
                             | None => false end in
-           ((if inline_ok then [" "] else cgap g (if is_line_cmt (craw n) then ind else 0)), ccmt (craw n))
+           ((if inline_ok then [" "] else cgap g (ind)), ccmt (craw n))
          else (cgap g ind, canon_child n))
         :: canon_lines rest (Some n) (if is_cmt n then seen else true)
     end.
@@ -52,7 +52,7 @@ Fixpoint canon (c : cnode) (ind : nat) : cnode :=
                        let inline_ok := match prev with
                                         | Some p => is_bind p && negb (has_nl g) && seen
                                         | None => false end in
-                       ((if inline_ok then [" "] else cgap g (if is_line_cmt (craw n) then ind + 2 else 0)), ccmt (craw n))
+                       ((if inline_ok then [" "] else cgap g (ind + 2)), ccmt (craw n))
                      else (cgap g (ind + 2), canon n (ind + 2)))
                     :: go rest (Some n) (if is_cmt n then seen else true)
                 end) body None false)
@@ -76,7 +76,7 @@ Fixpoint canon (c : cnode) (ind : nat) : cnode :=
                        let inline_ok := match prev with
                                         | Some p => negb (has_nl g) && seen
                                         | None => false end in
-                       ((if inline_ok then [" "] else cgap g (if is_line_cmt (craw n) then ind + 2 else 0)), ccmt (craw n))
+                       ((if inline_ok then [" "] else cgap g (ind + 2)), ccmt (craw n))
                      else (cgap g (ind + 2), canon n (ind + 2)))
                     :: go rest (Some n) (if is_cmt n then seen else true)
                 end) body None false)
